@@ -82,7 +82,8 @@ static void emit(Ctx &c, bool ok, const std::string &msg) {
 	if (!ok) {
 		std::string lg;
 		size_t nl = vf_log_count();
-		for (size_t i = nl > 25 ? nl - 25 : 0; i < nl; i++) lg += std::string(vf_log_line(i)) + "\n";
+		for (size_t i = 0; i < vf_errlog_count(); i++) lg += std::string("ERR ") + vf_errlog_line(i) + "\n";
+		for (size_t i = nl > 15 ? nl - 15 : 0; i < nl; i++) lg += std::string(vf_log_line(i)) + "\n";
 		o << "log " << esc(lg) << "\n";
 	}
 	o << "END\n";
